@@ -88,7 +88,7 @@ func TestC04(t *testing.T) {
 	st := StatsFor("C04")
 	rapid.Check(t, func(t *rapid.T) {
 		cfg := GenDistrCfg(t, c04Opts())
-		blocks := rapid.IntRange(1, 7).Draw(t, "blocks")
+		blocks := drawBlocks(t, 1, 7, 80)
 		inflows := genInflows(t, cfg, blocks, 30)
 		// the bank's send-enabled switch (a governance parameter): off by default or for one denomination
 		distrSendSwitch = []string{"", "", "", "default", Denom, "uatom"}[rapid.IntRange(0, 5).Draw(t, "sendSwitch")]
@@ -103,6 +103,7 @@ func TestC04(t *testing.T) {
 		if r.Restarts > 0 {
 			cl["node_restarted_between_blocks"] = true
 		}
+		scaleClasses(cl, blocks)
 		if distrSendSwitch != "" {
 			cl["bank_transfers_switched_off"] = true
 		}
